@@ -346,6 +346,8 @@ OUTSIDE_MODEL = {
     "C16r": "a new helper of the runner switches the session's execution flag and the markets' running flags at break boundaries: a new writer of the session switch is refused; FC16r re-opens only what it closed and is the same shape",
     "C17r": "index of indices: the index loops distinguish components by class; what a component of another class contributes is not stated by the rule (FC17r uses the market price for every class, same shape)",
     "C18r": "markets are also listed under the names of the entries their group inherits from; the extra filing (driven by a new parameter) and the de-duplicated id list are refused; wrong only when the parent entry is itself a listed group, which is a fact about the configuration",
+    "C20j": "the gap test moved into a new helper that rounds gap and threshold to tick levels: the direction table is read off comparisons of P, I and the threshold; a decision taken by new code on rounded values is refused (that rounding can swallow a gap above the threshold is arithmetic)",
+    "C20o": "the decision is taken on a new accessor IndexMarket.get_premium(): a decision taken by new code is refused; which index the premium is measured against is inside the accessor",
     "C20q": "chart-following flag moved to a class attribute and its sign cached in the constructor: the chart term no longer reads the instance's flag where the rule looks for it; whether the cached sign can go stale is a question about later writers of the flag",
     "C01q": "non-top removals re-sort the queue with a key function instead of re-heapifying: a queue kept by sort() is refused (whether the key agrees with the comparison of orders, here: where market orders go on the buy side, is a question about the key; FC01q is a correct key of the same shape)",
     "C02q": "the heap holds key tuples built around the orders, with an arrival number taken from len(queue): entries around orders are refused (FC02q is the same shape without the number)",
